@@ -272,3 +272,60 @@ func VH08d_stalled() {
 	verif.Reach("stalled-checked")
 	sock.Close()
 }
+
+// VH08e_burst: every member of a BUS (pair, chain, mesh) or STAR (pair, chain,
+// star) sends one message at the same moment, each from its own goroutine,
+// while the ownership ledger watches -- under every schedule in which one
+// goroutine (a sender, a forwarding hub, a per-connection writer or reader)
+// stalls at one synchronisation point until the others are at rest. Every
+// member that must get a message gets exactly one unchanged copy, nobody gets
+// its own message back, cooked BUS does not forward.
+func VH08e_burst() {
+	star := verif.Choice("pattern", 2) == 1
+	var ti int
+	proto := "bus"
+	if star {
+		proto = "star"
+		ti = []int{0, 1, 3}[verif.Choice("topo", 3)]
+	} else {
+		ti = verif.Choice("topo", 3)
+	}
+	lab := "C08/burst/" + proto + "/" + topoNames[ti]
+	ms := build(proto, ti)
+	var bodies [][]byte
+	var gs []*verif.G
+	errs := make([]error, len(ms))
+	for i, m := range ms {
+		b := []byte{byte('a' + i), byte('0' + i)}
+		bodies = append(bodies, b)
+		i, m := i, m
+		gs = append(gs, verif.Go("send", func() { errs[i] = m.sock.Send(b) }))
+	}
+	verif.Quiesce()
+	for i, g := range gs {
+		verif.Assert(g.Done() && errs[i] == nil, lab+"/send-blocks-or-fails")
+	}
+	for _, m := range ms {
+		drain(m, lab)
+	}
+	for i, m := range ms {
+		want := 0
+		for j := range ms {
+			n := count(m.got, bodies[j])
+			switch {
+			case i == j:
+				verif.Assert(n == 0, lab+"/own-message-came-back")
+			case star || isNbr(ms[j], i):
+				verif.Assert(n == 1, lab+"/member-did-not-get-exactly-one-copy")
+				want++
+			default:
+				verif.Assert(n == 0, lab+"/cooked-bus-forwarded")
+			}
+		}
+		verif.Assert(len(m.got) == want, lab+"/unexpected-message-count")
+	}
+	verif.Reach("burst-checked")
+	for _, m := range ms {
+		m.sock.Close()
+	}
+}
